@@ -473,6 +473,10 @@ pub fn k7(dir: &str, thorough: bool, seed: u64) {
                         // the shortcut patterns evaluated first inside a foreign restricted scope, then outside it
                         planted.push(format!("(3{{x}} in %s%: @{{x}}: (!{{y}}: AG EF {{y}})) | (3{{x}}: @{{x}}: (~%s% & (!{{y}}: AG EF {{y}})))"));
                         planted.push(format!("(3{{x}} in %d%: @{{x}}: (!{{y}}: AX {{y}})) | ~(!{{x}}: AX {{x}})"));
+                        // near misses of the shortcut patterns (the inner variable is not the bound one)
+                        planted.push(format!("3{{x}}: !{{y}}: AX {{x}}"));
+                        planted.push(format!("V{{x}}: !{{y}}: AG EF {{x}}"));
+                        planted.push(format!("3{{x}}: @{{x}}: (!{{y}}: (AX {{x}} & AG EF {{x}}))"));
                     }
                     let mut batches: Vec<Vec<String>> = planted.iter().map(|f| vec![f.clone()]).collect();
                     batches.push(planted.clone());
